@@ -208,7 +208,7 @@ func hostileInputs() []hostile {
 	add("promql",
 		"up["+rep("9", 30)+"s]", "up[1y1y1y]", "up offset "+rep("9", 25)+"y", "up @ 1e400", rep("9", 400), "1e999", "-"+rep("9", 400)+"."+rep("9", 400), "topk("+rep("9", 30)+", up)",
 		`up{job="unterminated`, `up{job='x`, "up{job=`x", `{`, `up{`, `up[`, `up[5m`, "sum by (", "sum(up) by", "\x00", "up\x00", `up{job="\x00"}`, "\xff", `up{job=~"`+rep("(a*)*", 1500)+`"}`,
-		`{__name__=~"`+rep("(", 100)+`"}`, "up "+rep("+ up ", 1600), "up{"+rep(`a="b",`, 1300)+`c="d"}`, "sum by ("+rep("a,", 3900)+"b) (up)", rep("up or ", 1300)+"up",
+		`{__name__=~"`+rep("(", 100)+`"}`, "up "+rep("+ up ", 700), "up{"+rep(`a="b",`, 1300)+`c="d"}`, "sum by ("+rep("a,", 3900)+"b) (up)", rep("up or ", 700)+"up",
 		rep("a", maxInput), rep("{", maxInput), rep("[", maxInput), rep("#", maxInput), "up # comment", "quantile_over_time(2, up[5m])", "histogram_quantile(up, up)",
 		"label_replace(up, \"\", \"\", \"\", \"(\")", "round(up, 0)", "clamp(up, 1, 0)", "up % 0", "1 / 0", "0 / 0", "-Inf ^ 0.5", "scalar(up) > bool 1", "vector(time())", "time() - "+rep("9", 300),
 		"rate(up[5m:1m])", "rate(up)", "rate(1)", "sum(up[5m])", "up[5m] + up[5m]", "absent_over_time(up[0s])", "up[0s]", "up[-5m]", "up offset -5m", "up @ start() @ end()",
